@@ -95,6 +95,20 @@ func NewHarness() *Harness {
 		Default: &RespPlan{Status: 200, Body: []byte("ok")}}
 }
 
+// SetPlan installs the response plan for a tag (safe while handlers run).
+func (h *Harness) SetPlan(tag string, p *RespPlan) {
+	h.mu.Lock()
+	h.Plans[tag] = p
+	h.mu.Unlock()
+}
+
+// SetDefault installs the plan used for unknown tags.
+func (h *Harness) SetDefault(p *RespPlan) {
+	h.mu.Lock()
+	h.Default = p
+	h.mu.Unlock()
+}
+
 // NewGate returns a gate channel that ReleaseAll will close if the scenario does not.
 func (h *Harness) NewGate() chan struct{} {
 	g := make(chan struct{})
